@@ -451,4 +451,111 @@ theorem anyCat_of_lvcr {inp : Input} {a : Nat} (h : catIn inp a [.lv, .cr] = tru
   simp at hm
   rcases hm with rfl | rfl <;> simp [anyCat]
 
+/-! ## extension round 2: in-place erasure and overwriting -/
+
+theorem safe_iterErase {inp : Input} {a : Nat} {mask : List Nat} (hc : ¬ IsLvCr (inp.cat a)) (hn : mask.length ≤ inp.size a) :
+    Safe inp (iterErase a mask) := by
+  refine ⟨?_, ?_⟩
+  · intro x hx
+    simp only [iterErase, List.mem_flatMap, List.mem_range, List.mem_cons] at hx
+    obtain ⟨i, hi, rfl | hx⟩ := hx
+    · exact (ok_read inp a i).2 (by omega)
+    · split at hx
+      · simp only [List.mem_singleton] at hx
+        subst hx
+        exact (ok_pop inp a i .drop).2 ⟨hc, by omega, destOk_drop inp⟩
+      · exact absurd hx List.not_mem_nil
+  · unfold Clean iterErase
+    rw [List.pairwise_flatMap]
+    refine ⟨?_, ?_⟩
+    · intro i _
+      rw [List.pairwise_cons]
+      refine ⟨fun y _ b j hk _ => hk, ?_⟩
+      split
+      · exact List.pairwise_singleton _ _
+      · exact List.Pairwise.nil
+    · refine List.Pairwise.imp ?_ (@List.pairwise_lt_range mask.length)
+      intro i j hij x hx y hy b k hk hu
+      have hxk : a = b ∧ i = k := by
+        simp only [List.mem_cons] at hx
+        rcases hx with rfl | hx
+        · exact hk.elim
+        · split at hx
+          · simp only [List.mem_singleton] at hx; subst hx; exact hk
+          · exact absurd hx List.not_mem_nil
+      have hyu : a = b ∧ j = k := by
+        simp only [List.mem_cons] at hy
+        rcases hy with rfl | hy
+        · exact hu
+        · split at hy
+          · simp only [List.mem_singleton] at hy; subst hy; exact hu
+          · exact absurd hy List.not_mem_nil
+      omega
+
+theorem safe_eraseRange {inp : Input} {a lo hi : Nat} (hc : ¬ IsLvCr (inp.cat a)) (hn : hi ≤ inp.size a) :
+    Safe inp (eraseRange a lo hi) := by
+  refine ⟨?_, ?_⟩
+  · intro x hx
+    simp only [eraseRange, List.mem_map, List.mem_range] at hx
+    obtain ⟨j, hj, rfl⟩ := hx
+    exact (ok_pop inp a _ .drop).2 ⟨hc, by omega, destOk_drop inp⟩
+  · apply clean_map_range
+    rintro i j hij _ b k ⟨rfl, rfl⟩ ⟨_, h⟩
+    omega
+
+theorem safe_fillAll {inp : Input} {a n : Nat} (hc : ¬ IsLvCr (inp.cat a)) (ha : a < inp.args.length) (hn : n ≤ inp.size a) :
+    Safe inp (fillAll a n) := by
+  refine ⟨?_, ?_⟩
+  · intro x hx
+    simp only [fillAll, List.mem_flatMap, List.mem_range, List.mem_cons, List.not_mem_nil, or_false] at hx
+    obtain ⟨i, hi, rfl | rfl⟩ := hx
+    · exact (ok_pop inp a i .drop).2 ⟨hc, by omega, destOk_drop inp⟩
+    · exact (ok_fresh inp _ _).2 ⟨by omega, (destOk_arg inp a).2 ⟨hc, ha⟩⟩
+  · unfold Clean fillAll
+    rw [List.pairwise_flatMap]
+    refine ⟨?_, ?_⟩
+    · intro i _
+      rw [List.pairwise_pair]
+      intro b j _ hu
+      exact hu
+    · refine List.Pairwise.imp ?_ (@List.pairwise_lt_range n)
+      intro i j hij x hx y hy b k hk hu
+      simp only [List.mem_cons, List.not_mem_nil, or_false] at hx hy
+      rcases hx with rfl | rfl
+      · rcases hy with rfl | rfl
+        · simp only [Instr.kills, Instr.uses] at hk hu; omega
+        · exact hu
+      · exact hk
+
+theorem safe_copies {inp : Input} {a i k : Nat} (hc : IsLvCr (inp.cat a)) (hi : i < inp.size a) :
+    Safe inp ((List.range k).map fun _ => Instr.xfer a i .copy .res) := by
+  refine ⟨?_, ?_⟩
+  · intro x hx
+    simp only [List.mem_map, List.mem_range] at hx
+    obtain ⟨_, _, rfl⟩ := hx
+    exact (ok_xfer_copy inp a i .res).2 ⟨hc, hi, destOk_res inp⟩
+  · apply clean_of_no_kills
+    intro x hx b j hk
+    simp only [List.mem_map, List.mem_range] at hx
+    obtain ⟨_, _, rfl⟩ := hx
+    exact hk
+
+theorem lvcr_of_in {inp : Input} {a : Nat} {cs : List Cat} (hc : catIn inp a cs = true)
+    (hcs : ∀ c ∈ cs, c = .lv ∨ c = .cr) : IsLvCr (inp.cat a) := by
+  obtain ⟨c, hc, hm⟩ := (catIn_iff inp a cs).1 hc
+  rw [hc]
+  rcases hcs c hm with rfl | rfl
+  · exact Or.inl rfl
+  · exact Or.inr rfl
+
+theorem lvcr_lvcr : ∀ c ∈ [Cat.lv, Cat.cr], c = .lv ∨ c = .cr := by simp
+theorem lvcr_cr : ∀ c ∈ [Cat.cr], c = .lv ∨ c = .cr := by simp
+
+theorem noKills_xferAll_copy' (a n : Nat) (d : Dest) : NoKills (xferAll a n .copy d) := noKills_xferAll_copy a n d
+
+/-- two arguments passed with the same value category -/
+theorem isRv_congr {inp : Input} {a b : Nat} (h : (inp.cat a == inp.cat b) = true) : inp.isRv a = inp.isRv b := by
+  simp only [beq_iff_eq] at h
+  simp [Input.isRv, h]
+
 end Fcppt.C05
